@@ -7,8 +7,14 @@ from pyvc.api import Any, Assoc, Bool, Dict, Int, Opaque, Opt, Rec, SeqOf, Str, 
 from pyvc.ex_call import external
 from pyvc.ty import VBool, VOpaque, VStr, VNone, VList, VInt, VOpt, Unsupported
 
+from pyvc.api import EnumOf  # noqa: E402
+
+# severity: member of the string-valued enum Severity -- SAME SMT sort as Str (see pyvc.ty.EnumOf), so every proof that
+# treats it as the string "error" is unchanged; natively (replay, CPython cross-check) it is the real Severity member,
+# which is what the code under proof produces (a Violation with severity="error" != one with Severity.ERROR)
 ViolationT = Rec("Violation", cls="src/core/types.py::Violation", pycls="src.core.types:Violation",
-                 rule_id=Str, file_path=Str, line=Int, column=Int, message=Str, severity=Str, suggestion=Opt(Str))
+                 rule_id=Str, file_path=Str, line=Int, column=Int, message=Str,
+                 severity=EnumOf("src/core/types.py::Severity", pycls="src.core.types:Severity"), suggestion=Opt(Str))
 
 PathT = Opaque("Path")
 PatternT = Opaque("Pattern")
